@@ -387,6 +387,42 @@ def rendered_setops(tl):
     return out
 
 
+ORDSTAT = [0]
+
+
+def rendered_order_by(b, tl):
+    """(number of sort keys, number of NULLS-ordering forms) of the ORDER BY at parenthesis depth 0"""
+    depth, start = 0, None
+    for i, t in enumerate(tl):
+        if t == ("C", "("):
+            depth += 1
+        elif t == ("C", ")"):
+            depth -= 1
+        elif depth == 0 and t == ("W", "ORDER") and i + 1 < len(tl) and tl[i + 1] == ("W", "BY"):
+            start = i + 2
+    if start is None:
+        raise WindowError("no ORDER BY at the top level")
+    depth, keys, marks, j = 0, 1, 0, start
+    while j < len(tl):
+        t = tl[j]
+        if t == ("C", "("):
+            depth += 1
+        elif t == ("C", ")"):
+            depth -= 1
+        elif depth == 0:
+            if t[0] == "W" and t[1] in ("LIMIT", "OFFSET", "FOR", "WINDOW", "RETURNING", "LOCK"):
+                break
+            if t == ("C", ","):
+                keys += 1
+            elif b == "pg" and t == ("W", "NULLS") and j + 1 < len(tl) and tl[j + 1] in (("W", "FIRST"), ("W", "LAST")):
+                marks += 1
+            elif b == "my" and t == ("W", "IS") and j + 2 < len(tl) and tl[j + 1] == ("W", "NULL") and \
+                    tl[j + 2] in (("W", "ASC"), ("W", "DESC")):
+                marks += 1
+        j += 1
+    return keys, marks
+
+
 def batch_oracle(ctx, lines, impl):
     verdicts = [None] * len(lines)
     pairs = []
@@ -476,6 +512,22 @@ def batch_oracle(ctx, lines, impl):
             if got_s != want_s:
                 verdicts[i] = "the set operations read from the statement are %r, the program gives %r" % (got_s, want_s)
             SETSTAT[0] += len(want_s)
+        # the statement's ORDER BY: one sort key per item given, in the dialect's NULLS-ordering form (Postgres:
+        # key .. NULLS FIRST|LAST; MySQL: an extra leading key `key IS NULL ASC|DESC`)
+        if verdicts[i] is None and prog[0] in ("select", "update", "delete"):
+            items = [c for c in prog[1:] if isinstance(c, list) and c and c[0] == "orderby"]
+            if items:
+                nn = sum(1 for c in items if not isinstance(c[-1], list) and c[-1] in ("first", "last"))
+                try:
+                    keys, marks = rendered_order_by(b, tl)
+                    want_keys = len(items) + (nn if b == "my" else 0)
+                    # (on MySQL a sort key may itself end in IS NULL: the forms read are a lower bound there)
+                    if keys != want_keys or (marks != nn if b == "pg" else marks < nn):
+                        verdicts[i] = ("ORDER BY carries %d sort key(s) and %d NULLS-ordering form(s) on %s; %d item(s) were given, "
+                                       "%d with a NULLS ordering (%d key(s) expected)" % (keys, marks, b, len(items), nn, want_keys))
+                except WindowError as e:
+                    verdicts[i] = "ORDER BY is not readable on %s: %s" % (b, e)
+                ORDSTAT[0] += 1
         # the upsert action: what the history of on-conflict calls asks for is what is written
         if verdicts[i] is None and prog[0] == "insert":
             want_u = given_upsert(prog)
@@ -506,6 +558,7 @@ def batch_oracle(ctx, lines, impl):
     ctx.cov["oracle_window_definitions_read"] = WINSTAT[0]
     ctx.cov["oracle_upsert_actions_read"] = UPSTAT[0]
     ctx.cov["oracle_set_operations_read"] = SETSTAT[0]
+    ctx.cov["oracle_order_by_clauses_read"] = ORDSTAT[0]
     return verdicts
 
 
